@@ -85,6 +85,8 @@ class Check:
     engine_opts = {}
     expected_events = ()  # event kinds that are part of the precondition (path excluded)
     violation_events = ()  # event kinds that are candidate violations
+    witness_search = 40  # float inputs tried when a solver candidate does not reproduce after rounding
+    witness_grid = [-2, -1, 0, 1, 2, 3, Fraction(1, 2), Fraction(-3, 2), Fraction(5, 4)]
     probe_events = ()  # event kinds ending the symbolic claim; one witness per such path is replayed concretely
     stubs = []
     assumptions = []
@@ -106,6 +108,14 @@ class Check:
 
     def patches(self, cfg):
         return self.extra_patches
+
+    def fix_values(self, cfg, new, model):
+        """make randomly drawn witness values respect the harness' assumptions (default: keep solver values for
+        parameters that are not data: names not containing '_')"""
+        for k, v in model.items():
+            if "_" not in k and v is not None:
+                new[k] = v
+        return new
 
     def same_outcome(self, cfg, sym_out, real_out):
         """compare the discrete outcome of a symbolic path with the real run on its witness"""
@@ -276,6 +286,25 @@ def run_config(check, cfg, tier, idx):
                         rec["replay_error"] = "".join(traceback.format_exception_only(type(e), e)).strip()
                         res["unconfirmed"].append(rec)
                         continue
+                    if not viol:
+                        # the solver's model does not survive rounding to float64 / the tolerance of the float oracle
+                        # (degenerate or tiny-margin model): search nearby well-conditioned inputs for a reproducing witness
+                        import random
+
+                        rng = random.Random(1234 + len(res["violations"]))
+                        for attempt in range(check.witness_search):
+                            mv2 = {k: Fraction(rng.choice(check.witness_grid)) if attempt % 2 == 0 else Fraction(rng.randint(-40, 40), 8) for k in mv}
+                            mv2 = check.fix_values(cfg, mv2, mv)
+                            try:
+                                with _unpatched():
+                                    oc2, viol2 = check.concrete(cfg, mv2)
+                            except Exception:  # noqa
+                                continue
+                            if viol2:
+                                viol, mv = viol2, mv2
+                                rec["values"] = _jsonable(mv2)
+                                rec["witness_found_by_search_after_solver_candidate"] = True
+                                break
                     if viol:
                         rec["reproduced"] = _jsonable(viol)
                         rec["signature"] = check.signature(cfg, clause, mv, viol)
